@@ -45,6 +45,7 @@ class TBuilder(Builder):
 
 class Prop(BaseProp):
     ID = "C11"
+    ANCHORS = ['cminx.aggregator:DocumentationAggregator.process_ct_add_test', 'cminx.aggregator:DocumentationAggregator.process_ct_add_section', 'cminx.aggregator:DocumentationAggregator.process_add_test', 'cminx.documentation_types:CTestDocumentation.process']
     LEVEL = "exploration"
     RULE = ("ct_add_test/ct_add_section/add_test with NAME at every argument position, EXPECTFAIL present/absent at "
             "any position, 0-6 further arguments from a hostile pool (arguments equal to the test name, keywords as "
